@@ -1,6 +1,199 @@
-(* stub, replaced below *)
-From Coq Require Import ZArith.
-From IB Require Import Window.Tumble.
+(* C13: tumbling windows partition event time; window grouping loses nothing.
+   This file holds ONLY the property theorems (each closed by `exact`) and their non-vacuity
+   examples.  Model: Window/Tumble.v (Window::tumble over Z with explicit u64 semantics, debug
+   and release profile) and Window/Grouping.v (key_by_window / group_by_window /
+   group_by_key_and_window over an arbitrary list of partitions).
+   `win_start ts size off = ts - (ts - off) mod size` is the mathematically correct start. *)
+From Coq Require Import List ZArith Bool Permutation.
+From IB Require Import Window.Tumble Window.Grouping
+     Proofs.WindowTumbleProofs Proofs.WindowGroupingProofs Proofs.WindowCorrProofs.
+From IB Require Corr.C13.
+Import ListNotations.
 Open Scope Z_scope.
-Theorem c13_tumble_refuted : tumble_debug 3 10 5 = Panic.
+
+(* ---- every representable timestamp gets the window of the specification ---- *)
+Theorem c13_tumble_spec :
+  forall ts size off : Z,
+    1 <= size -> off mod size <= ts -> win_start ts size off + size < 2 ^ 64 ->
+    let s := win_start ts size off in
+    tumble_debug ts size off = Ok (s, s + size)
+    /\ s <= ts < s + size
+    /\ (s + size) - s = size
+    /\ (s - off) mod size = 0
+    /\ (exists j : Z, s = off + j * size)
+    /\ 0 <= s.
+Proof. exact tumble_spec. Qed.
+
+Example c13_tumble_spec_ex :   (* ts below the offset, negative multiple: [15,25) = 25 - 1*10 *)
+  1 <= 10 /\ 25 mod 10 <= 17 /\ win_start 17 10 25 + 10 < 2 ^ 64
+  /\ tumble_debug 17 10 25 = Ok (15, 25).
+Proof. vm_compute. repeat split; congruence. Qed.
+
+(* ---- "exactly one window": any window with the three properties is that one ---- *)
+Theorem c13_tumble_unique :
+  forall ts size off s e : Z,
+    1 <= size -> e - s = size -> (s - off) mod size = 0 -> s <= ts < e ->
+    (s, e) = (win_start ts size off, win_start ts size off + size).
+Proof. exact tumble_unique. Qed.
+
+Example c13_tumble_unique_ex :
+  1 <= 10 /\ 35 - 25 = 10 /\ (25 - 5) mod 10 = 0 /\ 25 <= 27 < 35
+  /\ (win_start 27 10 5, win_start 27 10 5 + 10) = (25, 35).
+Proof. vm_compute. repeat split; congruence. Qed.
+
+(* ---- windows partition event time ---- *)
+Theorem c13_same_window_iff :
+  forall size off t1 t2 : Z,
+    1 <= size ->
+    (win_start t1 size off = win_start t2 size off <->
+     win_start t1 size off <= t2 < win_start t1 size off + size).
+Proof. exact same_window_iff. Qed.
+
+Example c13_same_window_ex : win_start 25 10 5 = win_start 34 10 5 /\ win_start 24 10 5 <> win_start 25 10 5.
+Proof. vm_compute. split; congruence. Qed.
+
+(* ---- the model panics exactly on size <= 0 and on the known class ---- *)
+Theorem c13_tumble_panics_iff :
+  forall ts size off : Z,
+    tumble_debug ts size off = Panic <-> (size <= 0 \/ unrepresentable ts size off = true).
+Proof. exact tumble_panics_iff. Qed.
+
+Example c13_tumble_panics_ex :
+  unrepresentable 3 10 5 = true /\ unrepresentable (2 ^ 64 - 1) 10 0 = true
+  /\ unrepresentable 17 10 25 = false.
+Proof. vm_compute. repeat split. Qed.
+
+(* ---- the open known-finding class: no u64 window exists there ---- *)
+Theorem c13_unrepresentable :
+  forall ts size off : Z,
+    1 <= size -> ts < off mod size ->
+    (forall s e : Z, 0 <= s -> is_window_of ts size off (s, e) = true -> False)
+    /\ tumble_debug ts size off = Panic.
+Proof. exact unrepresentable_low. Qed.
+
+Theorem c13_unrepresentable_high :
+  forall ts size off : Z,
+    1 <= size -> 2 ^ 64 <= win_start ts size off + size ->
+    (forall s e : Z, e < 2 ^ 64 -> is_window_of ts size off (s, e) = true -> False)
+    /\ tumble_debug ts size off = Panic.
+Proof. exact unrepresentable_high. Qed.
+
+Example c13_unrepresentable_ex :
+  1 <= 10 /\ 3 < 5 mod 10 /\ 2 ^ 64 <= win_start (2 ^ 64 - 1) 10 0 + 10
+  /\ is_window_of 3 10 5 (-5, 5) = true.
+Proof. vm_compute. repeat split; congruence. Qed.
+
+(* the model really fails on the registered witness; an optimised build returns a wrong window *)
+Theorem c13_tumble_refuted :
+  tumble_debug 3 10 5 = Panic
+  /\ exists w, tumble_release 3 10 5 = Ok w /\ is_window_of 3 10 5 w = false.
+Proof. split; [vm_compute; reflexivity|]. eexists. split; vm_compute; reflexivity. Qed.
+
+(* the class decided by the correspondence check is the class of the theorems *)
+Theorem c13_known_class_is_unrepresentable :
+  forall ts size off : Z,
+    Corr.C13.known_class ts size off = unrepresentable ts size off.
+Proof. exact known_class_eq. Qed.
+
+(* ---- an optimised (wrapping) build returns the same window wherever the checked one does ---- *)
+Theorem c13_release_agrees :
+  forall (ts size off : Z) (w : Z * Z),
+    tumble_debug ts size off = Ok w -> tumble_release ts size off = Ok w.
+Proof. exact tumble_release_agrees. Qed.
+
+Example c13_release_agrees_ex : tumble_debug 17 10 25 = Ok (15, 25) /\ tumble_release 17 10 25 = Ok (15, 25).
+Proof. vm_compute. split; reflexivity. Qed.
+
+(* ---- grouping: every element in exactly the group of its window; nothing lost or duplicated.
+   `exact_grouping eqb groups tagged` = keys of `groups` are unique, flatten groups is a
+   permutation of `tagged`, the key set is the set of windows that occur, and every group is
+   exactly (all of, in input order) the values tagged with its key, hence non-empty.
+   `ps` is any list of partitions: [data] for collect_seq, the runner's split for collect_par. ---- *)
+Theorem c13_group_by_window_exact :
+  forall (V : Type) (size off : Z) (ps : list (list (Z * V))),
+    1 <= size ->
+    (forall ev, In ev (concat ps) -> unrepresentable (fst ev) size off = false) ->
+    exists groups,
+      group_by_window tumble_debug size off ps = Ok groups
+      /\ NoDup (map fst groups)
+      /\ Permutation (flatten groups) (map (spec_tag_unkeyed size off) (concat ps))
+      /\ (forall w, In w (map fst groups)
+                    <-> In w (map fst (map (spec_tag_unkeyed size off) (concat ps))))
+      /\ (forall w, lookup window_eqb w groups
+                    = values_of window_eqb w (map (spec_tag_unkeyed size off) (concat ps)))
+      /\ (forall w vs, In (w, vs) groups ->
+                       vs = values_of window_eqb w (map (spec_tag_unkeyed size off) (concat ps))
+                       /\ vs <> []).
+Proof. exact group_by_window_exact. Qed.
+
+Theorem c13_group_by_key_and_window_exact :
+  forall (K V : Type) (keqb : K -> K -> bool),
+    (forall x y, reflect (x = y) (keqb x y)) ->
+    forall (size off : Z) (ps : list (list (K * (Z * V)))),
+      1 <= size ->
+      (forall kv, In kv (concat ps) -> unrepresentable (fst (snd kv)) size off = false) ->
+      exists groups,
+        group_by_key_and_window keqb tumble_debug size off ps = Ok groups
+        /\ NoDup (map fst groups)
+        /\ Permutation (flatten groups) (map (spec_tag_keyed size off) (concat ps))
+        /\ (forall kw, In kw (map fst groups)
+                       <-> In kw (map fst (map (spec_tag_keyed size off) (concat ps))))
+        /\ (forall kw, lookup (kw_eqb keqb) kw groups
+                       = values_of (kw_eqb keqb) kw (map (spec_tag_keyed size off) (concat ps)))
+        /\ (forall kw vs, In (kw, vs) groups ->
+                          vs = values_of (kw_eqb keqb) kw (map (spec_tag_keyed size off) (concat ps))
+                          /\ vs <> []).
+Proof. exact group_by_key_and_window_exact. Qed.
+
+Example c13_group_ex :   (* 3 windows, 2 partitions, a window spanning the partition boundary *)
+  group_by_window tumble_debug 10 25 [[(17, 1); (5, 2)]; [(22, 3); (25, 4)]]
+  = Ok [((15, 25), [1; 3]); ((5, 15), [2]); ((25, 35), [4])]
+  /\ forallb (fun ev => negb (unrepresentable (fst ev) 10 25)) [(17, 1); (5, 2); (22, 3); (25, 4)] = true.
+Proof. vm_compute. split; reflexivity. Qed.
+
+Example c13_group_keyed_ex :
+  group_by_key_and_window Z.eqb tumble_debug 10 5 [[(1, (7, 10)); (2, (8, 20))]; [(1, (14, 30)); (1, (15, 40))]]
+  = Ok [((1, (5, 15)), [10; 30]); ((2, (5, 15)), [20]); ((1, (15, 25)), [40])].
 Proof. vm_compute. reflexivity. Qed.
+
+(* key_by_window alone: element-wise, order kept *)
+Theorem c13_key_by_window_exact :
+  forall (V : Type) (size off : Z) (ps : list (list (Z * V))),
+    1 <= size ->
+    (forall ev, In ev (concat ps) -> unrepresentable (fst ev) size off = false) ->
+    key_by_window_unkeyed tumble_debug size off ps = Ok (map (map (spec_tag_unkeyed size off)) ps).
+Proof. exact key_by_window_exact. Qed.
+
+Theorem c13_key_by_window_keyed_exact :
+  forall (K V : Type) (size off : Z) (ps : list (list (K * (Z * V)))),
+    1 <= size ->
+    (forall kv, In kv (concat ps) -> unrepresentable (fst (snd kv)) size off = false) ->
+    key_by_window_keyed tumble_debug size off ps = Ok (map (map (spec_tag_keyed size off)) ps).
+Proof. exact key_by_window_keyed_exact. Qed.
+
+(* a run that contains one event of the known class (or size 0) panics as a whole *)
+Theorem c13_group_by_window_panics :
+  forall (V : Type) (size off : Z) (ps : list (list (Z * V))) (ev : Z * V),
+    In ev (concat ps) -> (size <= 0 \/ unrepresentable (fst ev) size off = true) ->
+    group_by_window tumble_debug size off ps = Panic.
+Proof. exact group_by_window_panics. Qed.
+
+Theorem c13_group_by_key_and_window_panics :
+  forall (K V : Type) (keqb : K -> K -> bool) (size off : Z)
+         (ps : list (list (K * (Z * V)))) (kv : K * (Z * V)),
+    In kv (concat ps) -> (size <= 0 \/ unrepresentable (fst (snd kv)) size off = true) ->
+    group_by_key_and_window keqb tumble_debug size off ps = Panic.
+Proof. exact group_by_key_and_window_panics. Qed.
+
+Example c13_group_panics_ex :
+  group_by_window tumble_debug 10 5 [[(30, 1)]; [(3, 2)]] = Panic.
+Proof. vm_compute. reflexivity. Qed.
+
+(* both execution modes: every group is the same list whatever the partitioning *)
+Theorem c13_grouping_mode_independent :
+  forall (K V : Type) (keqb : K -> K -> bool),
+    (forall x y, reflect (x = y) (keqb x y)) ->
+    forall (data : list (K * V)) (ps : list (list (K * V))),
+      concat ps = data ->
+      forall k, lookup keqb k (gbk keqb ps) = lookup keqb k (gbk keqb [data]).
+Proof. exact gbk_mode_independent. Qed.
